@@ -859,6 +859,10 @@ class Arnoldi:
         self.linargs = linargs
         self.__cached_matrix = None
 
+    @property
+    def __nutils_hash__(self):
+        return types.nutils_hash(('Arnoldi', self.maxiter, self.linargs))
+
     def __str__(self):
         return 'arnoldi'
 
